@@ -388,3 +388,41 @@ def tier_from_argv(argv=None):
         if a in ("quick", "thorough"):
             t = a
     return t or "quick"
+
+
+def check_members(c, named, prefix="members"):
+    """Member accessors (specs/Members.tla): `named` is a list of (label, event list as produced by
+    rt/cgen.member_trace).  Model-checks Members once, validates every log with Trace_Members plus three negative
+    controls (a getter value changed, a setter on the read-only member, a library view changed)."""
+    import copy
+    named = [(n, ev) for n, ev in named if ev]
+    if not named:
+        raise MachineryError("no member-accessor log recorded")
+    r, bad = model_check("MC_Members", "MC_Members", timeout=600)
+    c.add_tlc(r, "MC_Members")
+    if bad:
+        c.violation("model:MC_Members:%s" % bad, "design-level property %s violated" % bad, {"tlc_tail": r.out[-2000:]})
+    controls = []
+    base = named[0][1]
+    for op, change in (("WGet", lambda e: e.update(v=e["v"] + 1)), ("WSet", lambda e: e.update(m="ro")),
+                       ("LGet", lambda e: e.update(v=e["v"] + 1))):
+        k = copy.deepcopy(base)
+        hit = [e for e in k if e["op"] == op]
+        if hit:
+            change(hit[-1])
+            controls.append(k)
+    traces = [{"events": ev} for _n, ev in named] + [{"events": ev} for ev in controls]
+    v, st = validate_traces("Trace_Members", "Trace_Members", traces, shard=500)
+    c.add_stats(st, "Trace_Members", len(named))
+    ops = {}
+    for (name, ev), (verdict, detail) in zip(named, v):
+        for e in ev:
+            ops[e["op"]] = ops.get(e["op"], 0) + 1
+        if verdict == "REJECT":
+            c.violation("%s:%s" % (prefix, name), "member accessors of %s: %s" % (name, detail), {"config": name, "events": ev, "detail": detail})
+        else:
+            c.count(1, ["%s:%s" % (prefix, name)])
+    for i, (verdict, detail) in enumerate(v[len(named):]):
+        if verdict != "REJECT":
+            raise MachineryError("member negative control %d not rejected: %s" % (i, detail))
+    c.part("member_accessors", logs=len(named), events=ops, negative_controls_rejected=len(controls))
